@@ -33,7 +33,8 @@ CHECKS = {
             "parts": [FLOW,
                       {"name": "window-v1", "pkg": "pkg/lifecycle/stream", "harness": "c07w1", "run": "^TestVerifC07WindowV1$"},
                       {"name": "window-v2", "pkg": "pkg/lifecycle-poc/funnel", "harness": "c07w2", "run": "^TestVerifC07WindowV2$", "shards": 8, "shards_thorough": 16},
-                      {"name": "parity", "pkg": "pkg/lifecycle/dlqparity", "harness": "c07par", "run": "^TestVerifC07Parity$", "shards": 8, "shards_thorough": 16}]},
+                      {"name": "parity", "pkg": "pkg/lifecycle/dlqparity", "harness": "c07par", "run": "^TestVerifC07Parity$", "shards": 8, "shards_thorough": 16},
+                      {"name": "engine-parity", "pkg": "pkg/verifflow", "harness": "flow", "run": "^TestVerifC07EngineParity$", "instrument": True, "shards": 16, "shards_thorough": 16, "gomaxprocs": 1}]},
     "C12": {"parts": [FLOW]},
     "C10": {"parts": [FLOW, preempt(["pkg/lifecycle/service.go", "pkg/lifecycle-poc/service.go"])]},
     "C11": {"parts": [FLOW, preempt(["pkg/lifecycle/service.go", "pkg/lifecycle-poc/service.go"])]},
